@@ -35,6 +35,48 @@ ASCII_METHODS = {
 
 CHAR_IMPL = ("std::char::methods::<impl char>::", "core::char::methods::<impl char>::")
 
+_UNICODE = {}
+
+
+def unicode_method(name):
+    """Sets for the Unicode-table predicates of `char` (is_alphabetic, is_numeric, ...), computed from Python's unicodedata.
+    They approximate Rust's tables (another Unicode version; Alphabetic = letters + Nl here, without Other_Alphabetic).  The
+    XML productions are all given by explicit ranges, so these sets only ever appear on the *code* side of a comparison, where
+    any such predicate differs from the reference in thousands of code points; the approximation affects the witness, not the
+    verdict."""
+    if name in _UNICODE:
+        return _UNICODE[name]
+    import unicodedata as U
+    want = {
+        "is_alphabetic": lambda c, g: g[0] == "L" or g == "Nl",
+        "is_numeric": lambda c, g: g in ("Nd", "Nl", "No"),
+        "is_alphanumeric": lambda c, g: g[0] == "L" or g in ("Nl", "Nd", "No"),
+        "is_whitespace": lambda c, g: c.isspace() or g == "Zs",
+        "is_uppercase": lambda c, g: g == "Lu" or (c.isupper() and g[0] == "L"),
+        "is_lowercase": lambda c, g: g == "Ll" or (c.islower() and g[0] == "L"),
+        "is_control": lambda c, g: g == "Cc",
+    }.get(name)
+    if want is None:
+        return None
+    iv, start, prev = [], None, None
+    for cp in range(0x110000):
+        if 0xD800 <= cp <= 0xDFFF:
+            ok = False
+        else:
+            ch = chr(cp)
+            ok = want(ch, U.category(ch))
+        if ok:
+            if start is None:
+                start = cp
+            prev = cp
+        elif start is not None:
+            iv.append((start, prev))
+            start = None
+    if start is not None:
+        iv.append((start, prev))
+    _UNICODE[name] = CS.of(*iv)
+    return _UNICODE[name]
+
 
 class Interp:
     def __init__(self, facts, depth=0):
@@ -75,6 +117,10 @@ class Interp:
             raise Uninterpretable("path " + str(e.get("path")))
         if k == "Cast":
             v = self.ev(e["a"], env)
+            ty = str(e.get("ty", ""))
+            if v is XV and ty in ("u8", "i8", "u16", "i16"):
+                # a narrowing cast keeps the low bits only: 'к' (U+043A) as u8 is 0x3A, the code of ':'
+                return ("xmod", 256 if ty in ("u8", "i8") else 65536)
             if v is XV or isinstance(v, int):
                 return v
             raise Uninterpretable("cast")
@@ -143,6 +189,8 @@ class Interp:
             recv = self.ev(e["recv"], env)
             if recv is XV and path.startswith(CHAR_IMPL) and m in ASCII_METHODS and not e["args"]:
                 return ASCII_METHODS[m]
+            if recv is XV and path.startswith(CHAR_IMPL) and not e["args"] and unicode_method(m) is not None:
+                return unicode_method(m)
             if recv is XV and m == "as_char" and path == "nom::AsChar::as_char":
                 return XV
             if recv is XV and m in ("clone", "to_owned") and not e["args"]:
@@ -153,6 +201,14 @@ class Interp:
                 if a is XV:
                     return recv[1]
                 raise Uninterpretable("str::contains argument")
+            if isinstance(recv, tuple) and recv[0] == "str" and m == "as_bytes" and not e["args"]:
+                return ("bytes", recv[1])
+            if isinstance(recv, tuple) and recv[0] == "bytes" and m == "contains" and e["args"]:
+                a = self.ev(e["args"][0], env)
+                if isinstance(a, tuple) and a[0] == "xmod" and a[1] == 256 and isinstance(recv[1], CS):
+                    lows = [b for b in range(256) if b in recv[1]]
+                    return CS.of(*[hi * 256 + b for hi in range(0x1100) for b in lows])
+                raise Uninterpretable("[u8]::contains argument")
             if m == "contains" and "RangeInclusive" in path and recv is not None:
                 raise Uninterpretable("range contains")
             raise Uninterpretable("method %s (%s)" % (m, path))
